@@ -145,8 +145,12 @@ def build(repo):
             res is Ok ==> added(old(self).out.code@, final(self).out.code@).len() == 1 && all_protected_insts(added(old(self).out.code@, final(self).out.code@)), //@ C18:strobe-protected-once
             res is Ok ==> inst(final(self).out.code@[old(self).out.code@.len() as int]).mnemonic == AsmMnemonic::STA, //@ C18:strobe-is-store
             // a strobe on an ordinary (not split-port) constant pointer writes to the named address itself
-            (res is Ok && (match *expr { Expr::Identifier(name, _) => old(self).compiler_state.var(name@).var_const && port(old(self), old(self).compiler_state.var(name@), AsmMnemonic::STA) == 0, _ => false }))
+            (res is Ok && (match *expr { Expr::Identifier(name, sub) => *sub is Nothing && old(self).compiler_state.var(name@).var_const && port(old(self), old(self).compiler_state.var(name@), AsmMnemonic::STA) == 0, _ => false }))
                 ==> inst(final(self).out.code@[old(self).out.code@.len() as int]).dasm_operand@ == expr->Identifier_0@, //@ C18:strobe-address
+            // a subscript is honoured (a constant one designates the element) or rejected, never ignored
+            (res is Ok && expr is Identifier) ==> (*expr->Identifier_1 is Nothing || *expr->Identifier_1 is Integer), //@ C18,C01:strobe-subscript-constant-or-rejected
+            (res is Ok && (match *expr { Expr::Identifier(name, sub) => *sub is Integer && sub->Integer_0 > 0 && port(old(self), old(self).compiler_state.var(name@), AsmMnemonic::STA) == 0, _ => false }))
+                ==> inst(final(self).out.code@[old(self).out.code@.len() as int]).dasm_operand@ == addr_text(expr->Identifier_0@, (*expr->Identifier_1)->Integer_0 as int), //@ C18,C01:strobe-address-of-the-element
             res is Err ==> final(self).out.code@ == old(self).out.code@,
 """, expect_sig="fn generate_strobe_statement(&mut self, expr: &Expr, pos: usize) -> Result<(), Error>")
     st.body_start("        let ghost c0 = self.out.code@;\n        proof { assert(added(c0, c0) =~= Seq::<AsmLine>::empty()); }")
